@@ -32,6 +32,9 @@ PRE = ("From EsVerif.Common Require Import Base Bytes.\n"
        "From Coq.Strings Require Import Byte.\nOpen Scope list_scope.\n")
 
 _TMP = [None, 0]
+# class of failing cases repaired by fixes/C01/0002 (Spec.kf_noncontiguous_write): the array handed to the writer is
+# not C-contiguous and only the row bytes come back wrong
+KF_NONCONTIG = "C01.kf_noncontiguous_write"
 RESERVED_LOWER = ("_size", "_nrows", "_delim", "_shape", "_has_fields", "_dtype", "_version")
 
 
@@ -169,7 +172,10 @@ STRS = ["v", "THE END", "END", "\nEND\n", "END\n", "SIZE", "SIZE = 3", "SIZE =  
         " sep", "", " ", "{'a': 1}", "END" * 30, "word " * 40, "x" * 200, "a b c d e f g h i j k l m n o p q r s t u v w x y z " * 4,
         "WEEKEND", "\\nEND\\n", "'END'", "=", "==", "%s %d %%", "#comment", "1.0", "None"]
 KEYS = ["k", "key1", "END", "SIZE", "_x", "THE END", "a b", "é", "x" * 30, "end", "it's", 'q"uote', "TREND", "date",
-        "age", "note", "N", "_END", "_SIZE_", "list", "nested", "v1", "v2", "v3", "z", "_", "new\nline", "=", "dataset", "pyvers"]
+        "age", "note", "N", "_END", "_SIZE_", "list", "nested", "v1", "v2", "v3", "z", "_", "new\nline", "=", "dataset", "pyvers",
+        # underscore-prefixed names that are NOT the reserved ones (other case, other words): must be kept
+        "_Foo", "_Size", "_Version", "_myKey", "__dunder__", "_Nrows", "_Shape", "_sIZE", "size", "nrows", "shape", "delim",
+        "has_fields", "dtype", "version", "Size", "DELIM"]
 RES_EXACT = ["_size", "_SIZE", "_nrows", "_NROWS", "_delim", "_DELIM", "_shape", "_SHAPE", "_has_fields", "_HAS_FIELDS",
              "_DTYPE", "_VERSION"]
 
@@ -246,6 +252,9 @@ ADV = [
     ("adv:unicode", [["é", "<i4", []], ["α", ">c16", []]], {"é": "ünï", "k": "日本 END"}),
     ("adv:reserved-dropped", [["x", "<i4", []], ["y", ">i4", []]], {"_size": 7, "_SIZE": 8, "_DTYPE": "f8", "_VERSION": "9", "_delim": ",",
                                                                   "_NROWS": 1, "keep": "me"}),
+    ("adv:near-reserved-kept", [["x", "<i4", []], ["y", ">f8", []]], {"_Size": 3, "_Version": "x", "_Nrows": 2, "_Foo": 1, "size": 5, "nrows": 6,
+                                                                   "shape": (1,), "delim": ",", "has_fields": True, "dtype": "f8", "version": 2,
+                                                                   "_x": 0, "__dunder__": None, "_sIZE": "abc", "_Shape": [1]}),
     ("adv:no-header", [["x", "<i4", []], ["y", ">f8", [2]]], None),
     ("adv:empty-header", [["x", "<i4", []], ["s", "|S5", [2]]], {}),
 ]
@@ -518,7 +527,8 @@ class SFileEntry(Entry):
         orig = data.tobytes()
         fname = _fname()
         out = {"file": "", "text": None, "scan": ("err", "EOther", "not run"), "evaltext": ("err", "EOther", "not run"),
-               "read": None, "monitor": None, "ukeys": sorted(hdr) if hdr else [], "in_statement": user_hdr_ok(hdr)}
+               "read": None, "monitor": None, "ukeys": sorted(hdr) if hdr else [], "in_statement": user_hdr_ok(hdr),
+               "c_contiguous": bool(data.flags.c_contiguous)}
         try:
             text, head = real_write(self.kind, fname, data, hdr)
         except Exception as e:  # noqa
@@ -607,6 +617,17 @@ class SFileEntry(Entry):
     def show(self, c):
         return None
 
+    def classify(self, c, out, verdict):
+        # exactly the class of fixes/C01/0002: the array was not C-contiguous, the header part of the file and
+        # everything read back except the row bytes are right
+        rd = out.get("read")
+        if out.get("c_contiguous") is False and rd and rd[0] == "ok":
+            o = rd[1]
+            if (o["dtype"] == c["dtype"] and o["hdtype"] == c["dtype"] and o["size"] == len(c["rows"]) and len(o["rows"]) == len(c["rows"])
+                    and all(v for _, v in o["keys"]) and o["rows"] != c["rows"]):
+                return KF_NONCONTIG
+        return None
+
 
 class SFileFn(SFileEntry):
     kind = "sfile_fn"
@@ -639,7 +660,7 @@ class RecfileEntry(Entry):
         import esutil.recfile as recfile
         data = make_data(c)
         fname = _fname(".bin")
-        out = {"file": "", "read": None}
+        out = {"file": "", "read": None, "c_contiguous": bool(data.flags.c_contiguous)}
         dt = np_dtype_of(c["dtype"])
         n = len(c["rows"])
         kw = {"absent": {}, "exact": {"nrows": n}, "none": {"nrows": None}, "negative": {"nrows": -1}}[c.get("nrows", "absent")]
@@ -684,6 +705,13 @@ class RecfileEntry(Entry):
     def nontrivial(self, c, out):
         return bool(c.get("adv")) or (len(c["dtype"]) >= 2 and len(c["rows"]) >= 2 and any(int(ts[2:]) > 1 for _, ts, _ in c["dtype"]))
 
+    def classify(self, c, out, verdict):
+        rd = out.get("read")
+        if out.get("c_contiguous") is False and rd and rd[0] == "ok":
+            if rd[1]["dtype"] == c["dtype"] and len(rd[1]["rows"]) == len(c["rows"]) and rd[1]["rows"] != c["rows"]:
+                return KF_NONCONTIG
+        return None
+
 
 class RecfileFn(RecfileEntry):
     kind = "recfile_fn"
@@ -699,7 +727,7 @@ class Region(Entry):
     name = "sfile_region"
 
     def cases(self, ctx, round=0):
-        cs = table_cases(ctx, round, ctx.n(25, 700))
+        cs = table_cases(ctx, round, ctx.n(25, 700), layouts=False)
         for c in cs:
             c["nrows"] = ctx.rng.choice(["absent", "exact"])
         return cs
@@ -749,6 +777,95 @@ class Region(Entry):
 
     def nontrivial(self, c, out):
         return bool(c.get("adv")) or (len(c["dtype"]) >= 2 and len(c["rows"]) >= 2 and any(int(ts[2:]) > 1 for _, ts, _ in c["dtype"]))
+
+
+VIEWS = {
+    # name -> view of a 12-row base table b (1-d, C-contiguous)
+    "all": lambda b: b,
+    "step2": lambda b: b[::2],
+    "step3-offset": lambda b: b[1::3],
+    "reversed": lambda b: b[::-1],
+    "reversed-step2": lambda b: b[::-2],
+    "offset": lambda b: b[1:-1],
+    "one-row": lambda b: b[5:6],
+    "one-row-strided": lambda b: b[5:7:2],
+    "2d": lambda b: b.reshape(3, 4),
+    "transposed": lambda b: b.reshape(3, 4).T,
+    "2d-sub": lambda b: b.reshape(3, 4)[::2, 1:],
+    "2d-revcols": lambda b: b.reshape(3, 4)[:, ::-1],
+    "3d-transposed": lambda b: b.reshape(2, 3, 2).transpose(2, 0, 1),
+    "3d": lambda b: b.reshape(2, 3, 2),
+    "0d": lambda b: b[7:8].reshape(()),
+    "recarray": lambda b: b.view(__import__("numpy").recarray),
+    "newaxis": lambda b: b[2:9:3, None],
+}
+
+
+class LayoutEntry(Entry):
+    """"any structured array": the array exactly as numpy holds it (base buffer, offset of element 0,
+    shape, strides) goes into Coq (Layout.v); Recfile.write is the common writer of every entry point"""
+    name = "layout"
+
+    def cases(self, ctx, round=0):
+        r = ctx.rng
+        cs = []
+        for rep in range(ctx.n(1, 12) if round == 0 else 2):
+            for vn in VIEWS:
+                fields = gen_dtype(r, maxrow=24)
+                cs.append({"dtype": fields, "rows": gen_rows(r, fields, 12), "view": vn, "family": "layout-mem:" + vn})
+        return cs
+
+    def impl(self, c):
+        import numpy as np
+        import esutil.recfile as recfile
+        dt = np_dtype_of(c["dtype"])
+        base = np.frombuffer(b"".join(bytes.fromhex(x) for x in c["rows"]), dtype=dt).copy()
+        data = VIEWS[c["view"]](base)
+        start = data.__array_interface__["data"][0] - base.__array_interface__["data"][0]
+        out = {"buf": base.tobytes().hex(), "start": int(start), "dims": [[int(n), int(st)] for n, st in zip(data.shape, data.strides)],
+               "item": int(dt.itemsize), "np_rows": rows_of(data), "file": "", "read": None,
+               "c_contiguous": bool(data.flags.c_contiguous)}
+        fname = _fname(".bin")
+        try:
+            recfile.write(fname, data)
+            out["file"] = open(fname, "rb").read().hex()
+            rd = recfile.read(fname, dt)
+            out["read"] = ("ok", {"dtype": fields_of(rd.dtype) if (type(rd) is np.ndarray and rd.ndim == 1) else None,
+                                  "rows": rows_of(rd)})
+        except Exception as e:  # noqa
+            out["read"] = ("err", core.errclass(e), "%s: %s" % (type(e).__name__, str(e)[:200]))
+        finally:
+            try:
+                os.remove(fname)
+            except OSError:
+                pass
+        out["base_unchanged"] = (base.tobytes().hex() == out["buf"])
+        return out
+
+    def _view(self, out):
+        return "(mkview %s %s [%s] %s)" % (cbytes(bytes.fromhex(out["buf"])), cz(out["start"]),
+                                           "; ".join("(%s, %s)" % (cz(n), cz(st)) for n, st in out["dims"]), cz(out["item"]))
+
+    def term(self, c, out):
+        rd = out["read"]
+        nr = out["np_rows"]
+        cout = "(Ok (%s, %s))" % (cdtype(rd[1]["dtype"] or []), crows(rd[1]["rows"], (nr, "rows"))) if rd[0] == "ok" else "(Err %s)" % rd[1]
+        fileb = bytes.fromhex(out["file"])
+        cfile = "(concat rows)" if fileb == b"".join(bytes.fromhex(x) for x in nr) else cbytes(fileb)
+        return "let rows := %s in v_layout %s %s rows %s %s" % (crows(nr), self._view(out), cdtype(c["dtype"]), cfile, cout)
+
+    def nontrivial(self, c, out):
+        return c["view"] not in ("all", "recarray", "3d", "2d", "one-row", "0d")
+
+    def show(self, c):
+        return None
+
+    def classify(self, c, out, verdict):
+        rd = out.get("read")
+        if out.get("c_contiguous") is False and rd and rd[0] == "ok":
+            if rd[1]["dtype"] == c["dtype"] and len(rd[1]["rows"]) == len(out["np_rows"]) and rd[1]["rows"] != out["np_rows"]:
+                return KF_NONCONTIG
+        return None
 
 
 class Malformed(Entry):
@@ -939,7 +1056,7 @@ def coqchk_step(ctx):
         ctx.violation("coqchk rejects C01/Properties.vo or reports axioms", {"kind": "coqchk", "log_tail": r.stdout[-2000:]}, found_input=False)
 
 
-ENTRIES = [SFileFn(), SFileCls(), IoFn(), RecfileFn(), RecfileCls(), Region(), Malformed()]
+ENTRIES = [SFileFn(), SFileCls(), IoFn(), RecfileFn(), RecfileCls(), LayoutEntry(), Region(), Malformed()]
 
 TRUSTED = [
     "Coq 8.16.1 kernel (coqc, vm_compute; no native_compute); every C01 theorem is closed under the global context (no axioms)",
